@@ -8,6 +8,10 @@ def check(sc, obs):
     done = obs.get("tasks_done_at_exit")
     if done is not None and not all(done):
         return f"{done.count(False)} spawned task(s) still running after the scope block finished (spawned={sc['spawned']})"
+    before, after = obs.get("before"), obs.get("after")
+    if before is not None and after is not None and before[2] is not after[2]:
+        # a later spawn of this task would go into the finished group of the block that was left (or be refused by it)
+        return "after the block the task-group of the surrounding code is not the one it had before (a later spawn goes astray)"
     return None
 
 
